@@ -305,6 +305,8 @@ def run_case(cs):
     # ---- I7: the same rule on the syscall level, in a real sub-process (sees writes that bypass Python)
     if strace.available() and cs.rng.random() < (0.03 if cs.tier == "quick" else 0.06):
         _strace_audit(cs, d, area, root, dest, state)
+    if state == "nested" and rng.random() < 0.3:
+        _race(cs, rng, root)
     cs.sample({"state": state, "tree": sorted(tree)[:6]})
 
 
@@ -342,6 +344,54 @@ def _strace_audit(cs, d, area, root, dest, state):
         bad = [r for r in relevant if not all(os.path.abspath(p).startswith(dest) for p in r[1])]
         if bad:
             cs.violation("flatten-writes-outside-destination", {"kind": "syscall-mutation", "cmd": tool, "event": bad[0][0]}, {**ctx, "syscalls": [r[2] for r in bad[:3]]})
+
+
+def _race(cs, rng, root):
+    """a folder that holds a nested history is renamed by somebody else while create is hashing: whatever the run does
+    about it, it must not bring the vanished folder back (a name that no longer exists is not its to create)"""
+    import ascmhl.hasher as H
+
+    nested = [h for h in world.find_histories(root) if h != "."]
+    if not nested:
+        return
+    n = rng.choice(nested)
+    old, new = os.path.join(root, n), os.path.join(root, n + " (moved)")
+    state = {"calls": 0, "at": rng.randint(1, 3), "done": False}
+    had = H.__dict__.get("open")
+    import builtins
+
+    def hooked(path, *a, **kw):
+        state["calls"] += 1
+        # the files directly in the root folder are hashed last, after everything below the nested folder
+        late = os.path.dirname(os.path.abspath(os.fspath(path))) == os.path.abspath(root) or state["at"] == 3
+        if not state["done"] and late and state["calls"] >= state["at"] and os.path.isdir(old) and not os.path.lexists(new):
+            os.rename(old, new)
+            state["done"] = True
+        return (had or builtins.open)(path, *a, **kw)
+
+    H.open = hooked
+    try:
+        r = drive.run("create", [root] + world.fmt_args(world.gen_formats(rng)))
+    finally:
+        if had is None:
+            del H.open
+        else:
+            H.open = had
+    if not state["done"]:
+        return
+    cs.evaluated()
+    cs.count("create_commands")
+    cs.count("folder_renamed_while_create_runs")
+    cs.cls("create", "race-rename", "nested", r.exit)
+    if os.path.lexists(old):
+        left = []
+        for dp, dn, fn in os.walk(old):
+            left += [os.path.relpath(os.path.join(dp, x), root) for x in dn + fn]
+        cs.violation(
+            "create-changes-more-than-documented",
+            {"kind": "snapshot-diff", "cmd": "create-race", "what": ["recreated-vanished-folder"], "media_touched": False},
+            {"folder": n, "exit": r.exit, "recreated": sorted(left)[:6]},
+        )
 
 
 def _short(df):
